@@ -614,6 +614,19 @@ class PathAnalysis(flow.Analysis):
             return [self._events(state, stmt)]
         return [state]
 
+    def raise_tag_in(self, s, state):
+        # `cls = A if c else B; raise cls(...)`: the class is the one the local stands for on this path
+        if s.exc is not None:
+            e = s.exc.func if isinstance(s.exc, ast.Call) else s.exc
+            if isinstance(e, ast.Name) and not (self.handler_stack and self.handler_stack[-1].name == e.id):
+                t = state.term(e.id) or ""
+                d = self.defs.get(t, ("", None))[1]
+                if isinstance(d, (ast.Name, ast.Attribute)):
+                    return ast.unparse(d)
+                if t and t != e.id and SEP not in t and all(p_.isidentifier() for p_ in t.split(".")):
+                    return t  # a plain alias of a class name
+        return self.raise_tag(s)
+
     def enter_handler(self, state, handler, tag, node):
         if self.mark_handlers:
             state = state.add_event("caught:" + "/".join(self.handler_names(handler)))
